@@ -25,6 +25,7 @@ def _op(draw, dim):
     elif op == "rotate":
         c["angle"] = draw(st.one_of(st.integers(-48, 48).map(lambda k: 15.0 * k), st.integers(-720 * 8, 720 * 8).map(lambda k: k / 8.0)))
         c["axis"] = draw(st.integers(0, 2))
+        c["partial"] = draw(st.booleans())
     elif op == "scale":
         c["mult"] = draw(st.sampled_from([-3.0, -1.0, -0.5, 0.125, 0.5, 1.0, 1.5, 2.0, 7.0 / 8, 5]))
     return c
@@ -146,6 +147,16 @@ def check_transform(case, ctx):
             # pivot = current start point of the (first) shape, under either y-handedness
             m = ("rotate", st_["angle"], st_["axis"], {1.0: _map_point(p0, maps, 1.0), -1.0: _map_point(p0, maps, -1.0)})
             nonright = nonright or st_["angle"] % 90 != 0
+        if st_["op"] == "rotate" and st_.get("partial") and st_["inplace"]:
+            # only a part of the shape was sampled before it is turned (the pivot is still the start point of the shape)
+            for e in elems:
+                if e.pdimension == 1:
+                    a, b = e.domain
+                    e.evaluate(start=a + 0.25 * (b - a), stop=a + 0.75 * (b - a))
+                elif e.pdimension == 2:
+                    (a, b), (c_, d_) = e.domain
+                    e.evaluate(start_u=a + 0.25 * (b - a), stop_u=a + 0.75 * (b - a), start_v=c_ + 0.5 * (d_ - c_), stop_v=d_)
+            ctx.label("partly-sampled-before-rotation")
         if st_["op"] == "noop":
             res = tgt
         else:
